@@ -209,6 +209,9 @@ def BF.resize (N M : Nat) (bf : BF) : Option BF :=
     | none => none
     | some r => resizeLoop bf.iter 0 r
 
+/-- `impl Display for BitVector`: one character per bit, lowest index first -/
+def BF.display (bf : BF) : Bytes := bf.iter.map fun b => if b then 49 else 48
+
 /-- what `Hash` feeds the hasher: the byte slice, then `len` -/
 def BF.hashInput (bf : BF) : Bytes × Nat := (bf.bytes, bf.len)
 
